@@ -324,6 +324,50 @@ Proof.
     eapply star_step; [eapply S_remove; exact R| apply IH; exact E].
 Qed.
 
+(* add_taxa = the per-element add_taxon transitions, one after the other *)
+Lemma add_taxa_star (P : tid -> Prop) n ts n' : (forall t, In t ts -> P t) -> add_taxa n ts = Ok n' -> star (grow1 P) n n'.
+Proof.
+  revert n. induction ts as [|t r IH]; intros n HP; simpl.
+  - intros E; inversion E. apply star_refl.
+  - destruct (add_taxon n t) eqn:A; try discriminate. intros E.
+    eapply star_step; [eapply G_add; [apply HP; left; reflexivity| exact A]|].
+    apply IH; [intros x Hx; apply HP; right; exact Hx| exact E].
+Qed.
+
+(* add_taxa never runs out of fuel, and an exception means: immutable namespace, every element
+   before the offending one was already a member (so nothing had been changed when it was raised) *)
+Lemma add_taxa_err n ts : add_taxa n ts <> OutOfFuel.
+Proof.
+  revert n. induction ts as [|t r IH]; intros n; simpl; [discriminate|].
+  unfold add_taxon at 1. destruct (alookup t (acc n)); [apply IH|].
+  destruct (negb (is_mut n)); [discriminate| apply IH].
+Qed.
+
+Lemma add_taxa_mutable_ok ts : forall n, is_mut n = true -> exists n', add_taxa n ts = Ok n' /\ is_mut n' = true.
+Proof.
+  induction ts as [|t r IH]; intros n M; simpl; [eauto|].
+  unfold add_taxon at 1. destruct (alookup t (acc n)); [apply IH; exact M|].
+  rewrite M. simpl. apply IH. reflexivity.
+Qed.
+
+Lemma add_taxa_err_unchanged n ts e : add_taxa n ts = Err e ->
+  e = TypeErr /\ is_mut n = false
+  /\ exists pre t post, ts = pre ++ t :: post /\ alookup t (acc n) = None
+       /\ (forall x, In x pre -> exists i, alookup x (acc n) = Some i) /\ add_taxa n pre = Ok n.
+Proof.
+  destruct (is_mut n) eqn:M.
+  { intros E. destruct (add_taxa_mutable_ok ts n M) as (n' & E' & _). congruence. }
+  induction ts as [|t r IH]; simpl; [discriminate|].
+  unfold add_taxon at 1. destruct (alookup t (acc n)) as [i|] eqn:A.
+  - intros E. destruct (IH E) as (He & _ & pre & x & post & Ets & Ax & Hpre & Hrun).
+    split; [exact He|]. split; [reflexivity|]. exists (t :: pre), x, post. subst r.
+    split; [reflexivity|]. split; [exact Ax|]. split.
+    + intros y [Hy|Hy]; [subst; eauto| apply Hpre; exact Hy].
+    + simpl. unfold add_taxon. rewrite A. exact Hrun.
+  - rewrite M. simpl. intros E. inversion E; subst. split; [reflexivity|]. split; [reflexivity|].
+    exists [], t, r. split; [reflexivity|]. split; [exact A|]. split; [intros x []| reflexivity].
+Qed.
+
 Lemma taxa_bitmask_star P n ts b n' m : taxa_bitmask n ts b = Ok (n', m) -> star (grow1 P) n n'.
 Proof.
   revert n b. induction ts as [|t r IH]; intros n b; simpl.
@@ -512,7 +556,7 @@ Section WithLower.
 Variable lower : lbl -> lbl.
 
 Definition added (w : world) (o : op) (t : tid) : Prop :=
-  o = AddTaxon t \/ w_next w <= t < w_next (fst (step lower w o)).
+  o = AddTaxon t \/ (exists ts, o = AddTaxa ts /\ In t ts) \/ w_next w <= t < w_next (fst (step lower w o)).
 
 Theorem step_trans w o : o <> DeepCopy ->
   star (grow1 (added w o)) (w_ns w) (w_ns (fst (step lower w o)))
@@ -522,20 +566,22 @@ Proof.
   intros ND. destruct o; cbn [step fst w_ns set_ns]; try (left; apply star_refl); try congruence.
   - (* AddTaxon *) left. rewrite lift_ns_ns. destruct (add_taxon (w_ns w) t) eqn:A; try apply star_refl.
     apply star_one. eapply G_add; [left; reflexivity| exact A].
+  - (* AddTaxa *) left. rewrite lift_ns_ns. destruct (add_taxa (w_ns w) ts) eqn:A; try apply star_refl.
+    eapply add_taxa_star; [|exact A]. intros t Ht. right; left. eauto.
   - (* NewTaxon *) left. destruct (new_taxon w l) as [[w' t]| |] eqn:N; try apply star_refl.
     pose proof (new_taxon_spec _ _ _ _ N) as (Ht & _ & Ha & _ & Hn).
     cbn [fst w_ns set_ns]. apply star_one. eapply G_add; [|exact Ha].
-    right. cbn [step]. rewrite N. cbn [fst]. lia.
+    right; right. cbn [step]. rewrite N. cbn [fst]. lia.
   - (* NewTaxa *) left. destruct (negb (is_mut (w_ns w))) eqn:M; [apply star_refl|].
     destruct (new_taxa w ls []) as [[w' ts]| |] eqn:N; try apply star_refl.
     pose proof (new_taxa_star _ _ _ _ _ N) as (S & _). cbn [fst].
-    eapply star_grow_mono; [|exact S]. cbv beta. intros t H. right. cbn [step]. rewrite M, N. exact H.
+    eapply star_grow_mono; [|exact S]. cbv beta. intros t H. right; right. cbn [step]. rewrite M, N. exact H.
   - (* RequireTaxon *) left. destruct (lookup_first lower w l cs) eqn:L; [apply star_refl|].
     destruct (negb (is_mut (w_ns w))) eqn:M; [apply star_refl|].
     destruct (new_taxon w l) as [[w' t]| |] eqn:N; try apply star_refl.
     pose proof (new_taxon_spec _ _ _ _ N) as (Ht & _ & Ha & _ & Hn).
     cbn [fst w_ns set_ns]. apply star_one. eapply G_add; [|exact Ha].
-    right. cbn [step]. rewrite L, M, N. cbn [fst]. lia.
+    right; right. cbn [step]. rewrite L, M, N. cbn [fst]. lia.
   - (* RemoveTaxon *) right; left. rewrite lift_ns_ns.
     destruct (remove_taxon (w_ns w) t) eqn:A; try apply star_refl.
     apply star_one. eapply S_remove; exact A.
